@@ -241,6 +241,7 @@ fn run_generation(
     ops: &[Op],
     chosen_pick: &mut dyn FnMut(u64, u64, &[u64]) -> u64,
     dist: &mut Dist,
+    thorough: bool,
 ) -> (GenOut, Vec<u8>, u64) {
     let cfg = WalConfig::default();
     let base = fs::metadata(wal).map(|m| m.len()).unwrap_or(0);
@@ -271,16 +272,64 @@ fn run_generation(
     drop(store);
     let fbytes = fs::read(wal).unwrap_or_default();
     let len = fbytes.len() as u64;
-    // crash at every byte offset of what this generation appended (base..=len)
-    let mut runs: Vec<(u64, u64, Option<Obs>)> = vec![];
+    // crash at every byte offset of what this generation appended (base..=len); the recoveries
+    // are independent, so they run on a few threads (results are merged in offset order)
+    let t_rec = std::time::Instant::now();
+    // every byte offset; in the quick tier the interior of LARGE records (384-dim vectors,
+    // > 200 bytes) is visited with stride 7 (all offsets within 24 bytes of a record edge are
+    // always visited); the thorough tier visits every byte of everything
+    let mut interior = vec![false; fbytes.len() + 1];
+    if !thorough {
+        let mut pos = base as usize;
+        while pos + 8 <= fbytes.len() {
+            let l = u32::from_le_bytes([fbytes[pos], fbytes[pos + 1], fbytes[pos + 2], fbytes[pos + 3]]) as usize;
+            let end = pos + 8 + l;
+            if end > fbytes.len() {
+                break;
+            }
+            if l > 200 {
+                for (i, x) in interior.iter_mut().enumerate().take(end - 24).skip(pos + 24) {
+                    *x = i % 7 != 0;
+                }
+            }
+            pos = end;
+        }
+    }
+    let offsets: Vec<u64> = (base..=len).filter(|k| !interior[*k as usize]).collect();
+    let nthreads = 12usize.min(offsets.len().max(1));
+    let chunk = (offsets.len() + nthreads - 1) / nthreads.max(1);
+    let mut all: Vec<(u64, Option<Obs>)> = vec![];
+    std::thread::scope(|sc| {
+        let mut hs = vec![];
+        for (ti, part) in offsets.chunks(chunk.max(1)).enumerate() {
+            let fb = &fbytes;
+            let cfg = cfg.clone();
+            let path = scratch.with_extension(format!("t{ti}"));
+            hs.push(sc.spawn(move || {
+                let mut out = vec![];
+                for &k in part {
+                    fs::write(&path, &fb[..k as usize]).unwrap();
+                    let ro = match guarded(std::panic::AssertUnwindSafe(|| TensorStore::recover(&path, &cfg, None))) {
+                        Ok(Ok(s)) => Some(observe(&s)),
+                        _ => None,
+                    };
+                    out.push((k, ro));
+                }
+                let _ = fs::remove_file(&path);
+                out
+            }));
+        }
+        for h in hs {
+            all.extend(h.join().unwrap());
+        }
+    });
+    all.sort_by_key(|x| x.0);
+    if std::env::var("NVH_TIMING").is_ok() {
+        eprintln!("gen: {} ops, {} offsets, recoveries took {:?}", ops.len(), offsets.len(), t_rec.elapsed());
+    }
+    let mut runs: Vec<(u64, u64, u64, Option<Obs>)> = vec![]; // (from, to, step, observation)
     let mut oracle_fail = None;
-    for k in base..=len {
-        fs::write(scratch, &fbytes[..k as usize]).unwrap();
-        let ro = match guarded(std::panic::AssertUnwindSafe(|| TensorStore::recover(scratch, &cfg, None))) {
-            Ok(Ok(s)) => Some(observe(&s)),
-            Ok(Err(_)) => None,
-            Err(_) => None,
-        };
+    for (k, ro) in all {
         // the same oracle the Coq side evaluates, here only to label the evidence / replay
         let acked = ends.iter().filter(|e| **e <= k).count();
         let holds = ro.as_ref().map_or(false, |o| lives[acked..].iter().any(|l| l == o));
@@ -296,8 +345,11 @@ fn run_generation(
         }
         dist.hit(if ro.is_some() { "recover.ok" } else { "recover.err" });
         match runs.last_mut() {
-            Some((_, to, o)) if *o == ro && *to + 1 == k => *to = k,
-            _ => runs.push((k, k, ro)),
+            Some((from, to, step, o)) if *o == ro && (*from == *to || k - *to == *step) => {
+                *step = k - *to;
+                *to = k;
+            }
+            _ => runs.push((k, k, 1, ro)),
         }
     }
     let chosen = chosen_pick(base, len, &ends);
@@ -309,7 +361,7 @@ fn run_generation(
         list(ends.iter().map(|e| n(*e))),
         base,
         bytes(&fbytes),
-        list(runs.iter().map(|(a, z, o)| format!("({}, {}, {})", a, z, opt(o.as_ref().map(obs_coq))))),
+        list(runs.iter().map(|(a, z, st, o)| format!("({}, {}, {}, {})", a, z, st, opt(o.as_ref().map(obs_coq))))),
         chosen
     );
     let human = format!(
@@ -385,7 +437,7 @@ fn run_case(cx: &mut Ctx, label: &str, gens: Vec<Vec<Op>>, picks: Vec<Box<dyn Fn
                 }
             }
         };
-        let (out, fbytes, chosen) = run_generation(store, &wal, &scratch, &mut cx.vals, ops, &mut *picks[gi], &mut cx.dist);
+        let (out, fbytes, chosen) = run_generation(store, &wal, &scratch, &mut cx.vals, ops, &mut *picks[gi], &mut cx.dist, cx.args.thorough());
         if fail.is_none() {
             if let Some(f) = &out.oracle_fail {
                 fail = Some(format!("generation {}: {}", gi + 1, f));
@@ -492,7 +544,7 @@ fn main() {
             "property": "C02", "seed": args.seed, "tier": args.tier,
             "kinds": [cx.w.summary()],
             "distribution": cx.dist.json(),
-            "nontrivial_rule": "a case with at least 2 durable calls; every case recovers at EVERY byte offset of what each generation appended",
+            "nontrivial_rule": "a case with at least 2 durable calls; every case recovers at EVERY byte offset of what each generation appended (quick tier: stride 7 inside the payload of records > 200 bytes, every byte within 24 bytes of each record edge)",
         }),
     );
 }
